@@ -26,6 +26,10 @@ type Oneway struct{}
 func (f Oneway) Handler(ctx context.Context, name string, args []interface{}, next core.NextInvokeHandler) (result []interface{}, err error) {
 	if c, ok := core.FromContext(ctx); ok && c.Items().GetBool("oneway") {
 		go func() {
+			// nobody waits for the outcome, and nobody else recovers a panic in this goroutine
+			defer func() {
+				_ = recover()
+			}()
 			_, _ = next(ctx, name, args)
 		}()
 		return
